@@ -147,6 +147,8 @@ class C08(Prop):
         "validateseq_spec", "sq_digitize_spec", "convert_degen2x_spec", "expect_scvec_spec",
         "custom_history_wf", "custom_history_order", "custom_create_setequiv_status", "custom_setdegeneracy_caseins_status",
         "sq_add_residue_spec", "sq_count_residues_spec", "sq_checksum_ascii",
+        "guess_spec", "msa_guess_spec", "msa_vote_spec", "round_half_away", "iavg_score_rounding", "iexpect_score_rounding",
+        "iscvec_spec", "sq_count_residues_text_spec", "textizen_spec", "dsqrlen_dsqdup_spec", "count_nondegenerate_codes",
     )]
     claimed = True
     technique = ("Lean 4 proof: table theorems closed by `decide` over the whole regenerated tables (vs a hand-written IUPAC statement), "
@@ -217,6 +219,36 @@ class C08(Prop):
             tops += ["enctype hex=%s" % hx(nm), "enctypemem hex=%s" % hx(nm)]
         tops += ["dectype t=%d" % t for t in range(-2, 10)] + ["valtype t=%d" % t for t in range(-2, 10)]
         out.append({"name": "type-codes", "ops": tops, "sticky": 0})
+        for name in STD:
+            sym, K = STD[name]
+            ops = ["abc type=%s" % name]
+            ops += ["sqccount hex=%02x start=0 L=1" % c for c in range(1, 256)]
+            ops += ["validateseq hex=%02x" % c for c in range(0, 256)]      # (a NUL byte cuts the message short on both sides)
+            ops += ["validateseq hex=41%02x43 noabc=1" % c for c in range(0, 256, 5)]
+            out.append({"name": "allbytes2-%s" % name, "ops": ops, "sticky": 1})
+            # integer scores: exact ties (mean = k + 1/2, both signs) on every code; window of TextizeN at and past the sentinels
+            ops = ["abc type=%s" % name]
+            for x in range(len(sym)):
+                for base in ([1, 0, 2, 0], [-1, 0, -2, 0], [0, 0, 1, 0], [0, 0, -1, 0], [3, 3, 3, 4], [-3, -3, -3, -4], [7, -7, 1, -2]):
+                    sc = [base[i % 4] * (1 + i // 4) for i in range(K)]
+                    ops.append("iavg x=%d sc=%s" % (x, ",".join(map(str, sc))))
+                    ops.append("iexpect x=%d sc=%s p=%s" % (x, ",".join(map(str, sc)), ",".join(fbits(1.0 / K) for _ in range(K))))
+            ops.append("iscvec sc=%s" % ",".join(str((-1) ** i * (2 * i + 1)) for i in range(len(sym))))
+            ops.append("digitize hex=%s" % hx(sym[:4].encode()))
+            for off in range(0, 6):
+                for L in range(0, 8):
+                    ops.append("textizen off=%d L=%d" % (off, L))
+            ops += ["dsqdup L=known", "dsqdup L=unknown", "dsqnull", "dsqdup L=unknown"]
+            out.append({"name": "ties-windows-%s" % name, "ops": ops, "sticky": 1})
+        gops = []
+        for c in range(1, 256):
+            gops.append("sqguess hex=%s" % hx(bytes([c]) * 12))
+            gops.append("msaguess rows=%s,%s" % (hx(bytes([c]) * 6), hx(bytes([c]) * 6)))
+            gops.append("msaguess rows=%s,%s" % (hx(b"ACGTACGTACGT" + bytes([c])), hx(b"ACGUACGUACGU" + bytes([c]))))
+        out.append({"name": "guess-allbytes", "ops": gops, "sticky": 0})
+        # regression (fixed in 9b7e276): the pooled pass of esl_msa_GuessAlphabet stored to ct[26] for a '['
+        out.append({"name": "msa-guess-bracket", "ops": ["msaguess rows=%s,%s" % (hx(b"AC[GT-"), hx(b"ACGGT-")),
+                                                          "msaguess rows=%s" % hx(b"[[[[acgt[[[")], "sticky": 0})
         out.append({"name": "utest-custom", "sticky": 1, "ops": [
             "custom sym=%s K=20" % hx(b"ACDEFGHIKLMNPQRSTVWY-BJZX*~"), "equiv s=79 c=75", "equiv s=85 c=83", "caseins",
             "degen c=90 ds=%s" % hx(b"QE"), "dump", "digitize hex=%s" % hx(b"AaU-~Z"), "textize", "redigitize"]})
@@ -291,12 +323,21 @@ class C08(Prop):
             elif r < 0.55:
                 ops.append("revcomp n=%d" % rng.randrange(0, 6))
             elif r < 0.62:
-                ops.append("textizen off=%d L=%d" % (rng.randrange(0, 4), rng.randrange(0, 12)))
-            elif r < 0.68:
+                if known_len is not None and cur_len == -1 and rng.random() < 0.6:
+                    # window starting at / next to either sentinel, reaching exactly to, one short of, or past the closing sentinel
+                    off = rng.choice([0, 1, known_len, known_len + 1, max(0, known_len - 1), rng.randrange(0, known_len + 2)])
+                    L = max(0, known_len + 1 - off + rng.choice([-2, -1, 0, 1, 2, 5]))
+                    ops.append("textizen off=%d L=%d" % (off, L))
+                else:
+                    ops.append("textizen off=%d L=%d" % (rng.randrange(0, 4), rng.randrange(0, 12)))
+            elif r < 0.66:
                 ops.append("dsqrlen")
+            elif r < 0.68:
+                ops.append("dsqdup L=%s" % rng.choice(["known", "unknown"]))
             elif r < 0.73:
                 ops.append("degen2x")
             elif r < 0.90:
+                cur_len = -2      # the length python knew is stale after an append
                 if rng.random() < 0.1: ops.append("dsqnull")
                 n = self.rand_len(rng, False)
                 p2 = dict(pools); p2["high"] = bytes(range(128, 256))
@@ -385,6 +426,16 @@ class C08(Prop):
             ops.append("guess ct=%s" % ",".join(map(str, self.rand_counts(rng))))
         if rng.random() < 0.25:
             ops.append("sqguess hex=%s" % hx(bytes(c for c in self.guess_text(rng) if c != 0)))
+        if rng.random() < 0.35:
+            for _ in range(rng.randrange(1, 3)):
+                n = rng.choice([0, 1, 2, 3, rng.randrange(1, 40), rng.randrange(1, 300)])
+                p2 = dict(pools); p2["high"] = bytes(range(128, 256))
+                sq = bytes(c for c in self.rand_string(rng, p2, n, True) if c != 0); n = len(sq)
+                start = rng.choice([-1, 0, 0, 0, 1, n - 1, n, n + 1, rng.randrange(0, n + 1)])
+                L = rng.choice([-1, 0, 1, n, n - start, n - start + 1, n - start - 1, rng.randrange(0, n + 1)])
+                ops.append("sqccount hex=%s start=%d L=%d" % (hx(sq), start, L))
+        if rng.random() < 0.2:
+            ops.append(self.msa_op(rng))
         if rng.random() < 0.3:
             ops += self.type_ops(rng)
         if rng.random() < 0.3:
@@ -416,6 +467,31 @@ class C08(Prop):
             if rng.random() < 0.15 and n: b[rng.randrange(n)] = 0
             ops.append("sqcadd hex=%s" % hx(b))
         return ops
+
+    def msa_op(self, rng):
+        """esl_msa_GuessAlphabet on a text-mode alignment: rows each classified on their own (long rows of one kind, mixed
+        kinds: amino + nucleic = unknown, DNA + RNA = DNA), narrow alignments decided by the pooled second pass, the 10000-letter
+        cutoffs of both passes; '[' (= 'A'+26, fixed in 9b7e276) and its neighbours included"""
+        kinds = {"dna": b"ACGT" * 6 + b"N", "rna": b"ACGU" * 6 + b"N", "aa": b"ACDEFGHIKLMNPQRSTVWY", "aa2": b"ACDGHKMNRSTVWY", "n": b"N", "gap": b"-."}
+        r = rng.random()
+        if r < 0.35: nrow, alen = rng.randrange(1, 6), rng.choice([1, 3, 5, 8, 11, 12, 20, 40])
+        elif r < 0.85: nrow, alen = rng.randrange(1, 9), rng.choice([11, 12, 15, 30, 60, 200])
+        else: nrow, alen = rng.choice([1, 2, 3, 12]), rng.choice([2001, 3400, 5001, 10000, 10001, 10010])
+        mix = rng.random()
+        rows = []
+        k0 = rng.choice(["dna", "rna", "aa", "aa2", "n"])
+        for i in range(nrow):
+            k = k0 if mix < 0.6 else rng.choice(["dna", "rna", "aa", "aa2", "n", "gap"])
+            b = bytearray(rng.choice(kinds[k]) for _ in range(alen))
+            for j in range(alen):
+                q = rng.random()
+                if q < 0.15: b[j] |= 0x20
+                elif q < 0.25: b[j] = rng.choice(b"-.")
+                elif q < 0.27: b[j] = rng.choice([64, 91, 91, 92, 93, 96, 123, 42, 126, 200, 0xC1, 0xE1, 0xFF, 49])
+            if alen > 9000 and rng.random() < 0.5:
+                k = rng.randrange(1, 9); b[alen - k:] = b"EFILPQEF"[:k]
+            rows.append(bytes(b[:alen]))
+        return "msaguess rows=%s" % ",".join(hx(r) for r in rows)
 
     def type_ops(self, rng):
         """esl_abc_EncodeType / EncodeTypeMem / DecodeType / ValidateType: the six names in random case, near misses
@@ -669,6 +745,19 @@ class C08(Prop):
                     if 50 * other > nl or any(ct[ord(c) - 65] == 0 for c in ("ACGT" if t == 2 else "ACGU")):
                         return Failure("monitor", "esl_sq_GuessAlphabet answers %s on a composition outside the documented thresholds" % ("DNA" if t == 2 else "RNA"))
                 continue
+            if name == "msaguess":
+                rows = [unhex(h) for h in d["rows"].split(",")]
+                t = int(kv(l).get("type", -1))
+                if (l.split()[0] == "ok") != (t != 0) or l.split()[0] not in ("ok", "enoalphabet") or t not in (0, 1, 2, 3):
+                    return Failure("monitor", "esl_msa_GuessAlphabet status/type inconsistent: %s" % l)
+                letters = [c & 0xDF for r_ in rows for c in r_ if 65 <= c <= 90 or 97 <= c <= 122]
+                if len(letters) <= 10 and t != 0:
+                    return Failure("monitor", "esl_msa_GuessAlphabet guesses type %d from %d letters" % (t, len(letters)))
+                if t == 3 and not any(chr(c) in "DEFHIJKLMOPQRSVWYZ" for c in letters):
+                    return Failure("monitor", "esl_msa_GuessAlphabet calls an alignment without any amino-specific letter amino")
+                if t in (1, 2) and sum(len(r_) for r_ in rows) <= 10000 and all(any(chr(c & 0xDF) in "EFIJLOPQZ" for c in r_ if 65 <= (c & 0xDF) <= 90 and c < 128) for r_ in rows):
+                    return Failure("monitor", "esl_msa_GuessAlphabet calls an alignment nucleic although every row has amino-only letters")
+                continue
             if name == "sqcadd":
                 src = unhex(d["hex"]); want = bytes(c for c in src if c != 0)
                 r = kv(l)
@@ -773,6 +862,35 @@ class C08(Prop):
                                 if a.degen[c][y]: want[y] += 1.0 / a.ndegen[c]
                     if any(math.isnan(f[y]) or abs(f[y] - want[y]) > 1e-3 * (1 + want[y]) for y in range(a.K)):
                         return Failure("monitor", "esl_sq_CountResidues: counts are not the equal split over the degeneracy sets of the residues in range")
+            elif name == "sqccount":
+                src = unhex(d["hex"]); n = len(src); start = int(d.get("start", 0)); L = int(d.get("L", n))
+                st = l.split()[0]
+                if (st == "erange") != (start < 0 or start + L > n) or st not in ("ok", "erange"):
+                    return Failure("monitor", "text-mode esl_sq_CountResidues(start=%d, L=%d) on n=%d answers %s" % (start, L, n, st))
+                f = [unfbits(v) for v in kv(l)["f"].split(",")]
+                if st == "erange":
+                    if any(v != 0.0 for v in f): return Failure("monitor", "esl_sq_CountResidues changed the counts although it answered eslERANGE")
+                elif all(a.ndegen[x] == sum(1 for y in range(a.K) if a.degen[x][y]) for x in range(a.Kp)):
+                    want = [0.0] * a.K
+                    for ch_ in src[start:start + max(0, L)]:
+                        c = a.inmap[ch_] if ch_ < 128 else ILLEGAL
+                        if c < a.K: want[c] += 1.0
+                        elif a.K < c < a.Kp - 2 and a.ndegen[c]:
+                            for y in range(a.K):
+                                if a.degen[c][y]: want[y] += 1.0 / a.ndegen[c]
+                    if any(math.isnan(f[y]) or abs(f[y] - want[y]) > 1e-3 * (1 + want[y]) for y in range(a.K)):
+                        return Failure("monitor", "text-mode esl_sq_CountResidues: counts are not the equal split over the degeneracy sets of the valid residues in range")
+            elif name == "iavg":
+                x = int(d["x"]); sc = [int(v) for v in d["sc"].split(",")]; got = int(l.split()[1])
+                if x >= a.Kp or not a.is_residue(x):
+                    if got != 0: return Failure("monitor", "iavg of non-residue code %d is %d" % (x, got))
+                    continue
+                members = [sc[y] for y in range(a.K) if a.degen[x][y]]
+                if a.ndegen[x] != len(members) or not members or max(abs(v) for v in members) > 10 ** 6: continue
+                tot, m = sum(members), len(members)       # round half away from zero of tot/m, exactly
+                want = (abs(2 * tot) + m) // (2 * m) * (1 if tot >= 0 else -1)
+                if got != want:
+                    return Failure("monitor", "iavg x=%d: %d is not the mean %d/%d rounded half away from zero (%d)" % (x, got, tot, m, want))
             elif name == "validateseq":
                 src = unhex(d["hex"])
                 bad = [c for c in src if (c >= 128 if "noabc" in d else not (c < 128 and a.inmap[c] < a.Kp))]
